@@ -34,3 +34,17 @@ check(
     "Hypothesis property-based testing vs. reference edit model; differential XML parsing (libxml2 vs expat); strict unified-diff applier",
     "DESIGN.md §3 C19",
 )
+check(
+    "C01", "exploration",
+    "Generated-input search over the program space for all 101 registered codemods (detector-less, semgrep-rule-detected through the real semgrep binary, SAST-driven with shifted and replicated tool documents): harvested trigger snippets x wrap contexts x layout/EOL/BOM/tab variants x 1-3 sites per file, each run through the real CLI in a forked child; the bytes found on disk afterwards are judged by CPython's compile()/ast.parse(). Exploration fits: the domain is all Python programs; the oracle is the language's own parser.",
+    "Trusted: CPython's parser as validity judge; harvested seeds are what the repository's authors consider triggers; transformations are validity-preserving (compile-checked, ops that break validity are dropped and counted). Multi-codemod sequences are covered by C09's histories. UTF-8 only.",
+    "Hypothesis property-based testing over a seeded program space; CPython compile/ast.parse as oracle",
+    "DESIGN.md §3 C01",
+)
+check(
+    "C02", "exploration",
+    "Same generated program space as C01, judged by an invariant computed with the stdlib symtable (independent of libcst): the set of names read but bound neither in an enclosing scope, at module level nor as builtins must not grow across the rewrite. Catches dropped imports/assignments still in use (incl. closure reads), missing added imports, and garbage identifiers.",
+    "Trusted: symtable-based unresolved-name computation (flow-insensitive, as the statement phrases it); star-import files skipped and counted; attribute-level errors are out of scope.",
+    "Hypothesis property-based testing; scope-aware unresolved-name invariant (stdlib symtable)",
+    "DESIGN.md §3 C02",
+)
